@@ -261,6 +261,10 @@ func (u *PacketUnderlay) RunEventLoop(ctx context.Context) error {
 				}
 				continue
 			}
+			if !segmentUserOwnsSession(session.(*Session), seg) {
+				log.Debugf("%v dropped %v from peer %v: session %d belongs to another user", u, seg, addr, das.sessionID)
+				continue
+			}
 			u.deliverSegmentToSession(session.(*Session), seg)
 		} else {
 			log.Debugf("Ignore unknown protocol %d", seg.metadata.Protocol())
@@ -326,6 +330,21 @@ func (u *PacketUnderlay) onOpenSessionResponse(seg *segment) error {
 	return nil
 }
 
+// segmentUserOwnsSession reports whether the segment was authenticated as the
+// user that owns the session. All sessions of a server side packet underlay
+// share one session ID space, so a registered user can name a session of
+// another user in its own, validly encrypted segments.
+func segmentUserOwnsSession(s *Session, seg *segment) bool {
+	if seg.block == nil {
+		return true
+	}
+	sessionBlock := s.block.Load()
+	if sessionBlock == nil {
+		return true
+	}
+	return (*sessionBlock).BlockContext().UserName == seg.block.BlockContext().UserName
+}
+
 func (u *PacketUnderlay) onCloseSession(seg *segment) error {
 	ss := seg.metadata.(*sessionStruct)
 	sessionID := ss.sessionID
@@ -337,6 +356,9 @@ func (u *PacketUnderlay) onCloseSession(seg *segment) error {
 		return nil
 	}
 	s := session.(*Session)
+	if !segmentUserOwnsSession(s, seg) {
+		return fmt.Errorf("session %d belongs to another user", sessionID)
+	}
 	if !u.deliverSegmentToSession(s, seg) && log.IsLevelEnabled(log.TraceLevel) {
 		log.Tracef("%v ignored closeSessionRequest or closeSessionResponse segment for closed session %d", u, sessionID)
 	}
